@@ -1,6 +1,6 @@
 #!/bin/bash
 # Re-validates every stored seeded change against the current /repo HEAD and runs the owning property's quick check on it.
-# Output: /verif/seeded/RESULTS.md   (usage: tools/seedmatrix.sh [--with-suite])
+# Output: /verif/seeded/RESULTS.md   (usage: tools/seedmatrix.sh [--with-suite]); works in its own worktree, /repo is only read
 cd /verif
 OUT=/verif/seeded/RESULTS.md
 HEAD=$(git -C /repo rev-parse --short HEAD)
@@ -23,10 +23,19 @@ for d in /verif/seeded/C*/; do
   suite="-"
   if [ "${1:-}" = "--with-suite" ]; then suite=$(cd $WT && PYTHONPATH=$WT /venv/bin/python -m pytest -q -p no:cacheprovider --timeout=900 tests 2>&1 | tail -1 | sed 's/ in .*//'); fi
   git -C $WT checkout -q -- . ; rm -rf $WT/tests/.pytest_cache
-  out=$(tools/seedrun.sh $P $d/patch.diff 2>&1)
+  out=$(tools/seedrun_wt.sh $P $d/patch.diff $WT 2>&1)
   rc=$(echo "$out" | grep -o "seedrun rc=[0-9]*" | cut -d= -f2)
   sig=$(echo "$out" | grep "signature:" | head -1 | sed 's/ *signature: //')
   verdict=$([ "$rc" = "1" ] && echo DETECTED || echo "missed (rc=$rc)")
+  # a change seeded for one property may break another one first (e.g. a renderer that writes into the scenario is C18's business):
+  # seeded/<id>/detected_by names the property whose check is expected to report it
+  if [ "$rc" != "1" ] && [ -f $d/detected_by ]; then
+    Q=$(cat $d/detected_by)
+    out=$(tools/seedrun_wt.sh $Q $d/patch.diff $WT 2>&1)
+    rc=$(echo "$out" | grep -o "seedrun rc=[0-9]*" | cut -d= -f2)
+    sig=$(echo "$out" | grep "signature:" | head -1 | sed 's/ *signature: //')
+    verdict=$([ "$rc" = "1" ] && echo "DETECTED by $Q (not by $P)" || echo "missed (rc=$rc, also by $Q)")
+  fi
   [ $r1 -eq 0 ] && verdict="$verdict (seed no longer manifests: neutralised by a later fix)"
   echo "| $s | $P | yes | rc=$r0 | rc=$r1 | $suite | $verdict | \`$sig\` |" >> $OUT
 done
